@@ -101,6 +101,10 @@ fn main() {
         std::process::exit(2);
     }
     let wall = t0.elapsed().as_secs_f64();
+    let fb = bsv::codecs::FALLBACKS.with(|f| f.get());
+    if fb > 0 {
+        ctx.classes.insert("provenance_fallback".to_string(), fb);
+    }
     let j = ctx.to_json(wall);
     if let Some(path) = out {
         let mut f = std::fs::File::create(&path).expect("cannot create output file");
